@@ -74,7 +74,11 @@ func NewLexer(source []rune) *Lexer {
 
 // Next - return current rune, and move forward the cursor for 1 character.
 func (l *Lexer) Next() rune {
-	l.cursor += 1
+	// never move past the end of input: callers that keep reading at EOF must still
+	// see a cursor inside the text (token spans and error positions depend on it)
+	if l.cursor < len(l.Source) {
+		l.cursor += 1
+	}
 
 	// still no data, return EOF directly
 	return l.getChar(l.cursor)
